@@ -488,6 +488,15 @@ pub mod fs {
                 if fail {
                     return Err(io::Error::new(io::ErrorKind::PermissionDenied, "Permission denied (os error 13)"));
                 }
+                // a path component that is an existing *file* cannot be a directory (ENOTDIR)
+                let mut at = 0;
+                while let Some(i) = path[at..].find('/') {
+                    let prefix = &path[..at + i];
+                    if !prefix.is_empty() && w.vfs.contains_key(prefix) {
+                        return Err(io::Error::new(io::ErrorKind::Other, "Not a directory (os error 20)"));
+                    }
+                    at += i + 1;
+                }
                 w.vfs.insert(path.clone(), dsim::VFile::default());
                 Ok(File { path, pos: 0, writable: true })
             })
